@@ -88,9 +88,9 @@ func validatePermTree(root *ptree.PermNode, isAccount bool) (bool, error) {
 		checkResult := false
 		if nameCheck == 0 {
 			// current node is AK, signature should be validated before: that holds for
-			// the key a signer uri ends in only. An address has no members, so an AK
-			// that other names hang under ("account/member/outsider") did not sign.
-			checkResult = len(pnode.Children) == 0
+			// the key a signer uri ends in only. An AK that merely lies on the way to
+			// another name ("account/member/outsider") did not sign.
+			checkResult = pnode.EndsURI
 		} else if nameCheck == 1 {
 			// current node is Account, so validation using ACLValidator
 			if pnode.ACL == nil {
